@@ -129,6 +129,10 @@ class Interp:
             return ('obj', id(v))
         if isinstance(v, ClassRef):
             return ('cls', v.name)
+        if isinstance(v, Builtin):
+            return ('builtin', v.name)
+        if isinstance(v, Ext):
+            return ('ext', v.dotted)
         return ('obj', id(v))
 
     def decide(self, key, desc, node=None):
@@ -157,6 +161,9 @@ class Interp:
         if isinstance(v, BA):
             return len(v) > 0
         if isinstance(v, Inst):
+            c, m = self.prog.find_method(v.cls, '__bool__') if v.cls else (None, None)
+            if m is not None:
+                return self.truth(self.invoke(FuncRef(m, c.module, c), [v], {}), node)
             if v.native is not None and hasattr(v.native, '__len__'):
                 return len(v.native) > 0
             c, m = self.prog.find_method(v.cls, '__len__') if v.cls else (None, None)
@@ -267,7 +274,9 @@ class Interp:
         if isinstance(b, (Inst, ListV, DictV)) and isinstance(a, K) and a.v is None:
             return False
         if isinstance(a, ClassRef) and isinstance(b, ClassRef):
-            return a is b
+            return a is b or (a.name == b.name and a.module == b.module and a.node is b.node)
+        if isinstance(a, (Builtin, ClassRef, Ext)) and isinstance(b, (Builtin, ClassRef, Ext)):
+            return self.vkey(a) == self.vkey(b)
         ka, kb = self.vkey(a), self.vkey(b)
         if ka == kb and not isinstance(a, (Inst, ListV, DictV)):
             return True
@@ -321,6 +330,8 @@ class Interp:
             if name in m.imports:
                 tgt, nm = m.imports[name]
                 return self.resolve_import(tgt, nm)
+            if (module, name) in self.__dict__.get('_globals', {}):
+                return self._globals[(module, name)]
             if name in m.consts:
                 # module-level objects are created once per process: keep their identity (module-level mutable state is observable)
                 cache = self.__dict__.setdefault('_globals', {})
@@ -372,10 +383,28 @@ class Interp:
                 parts.append(K(v.value))
             else:
                 x = self.ev(v.value, fr)
-                if isinstance(x, K) and v.format_spec is None and v.conversion == -1:
-                    parts.append(K(format(x.v)))
-                else:
+                spec = None
+                if v.format_spec is not None:
+                    sp = self.ev(v.format_spec, fr)
+                    spec = sp.v if isinstance(sp, K) and isinstance(sp.v, str) else False
+                if isinstance(x, K) and spec is not False and not callable(x.v):
+                    val = x.v
+                    if v.conversion == 114:
+                        val = repr(val)
+                    elif v.conversion == 115:
+                        val = str(val)
+                    elif v.conversion == 97:
+                        val = ascii(val)
+                    try:
+                        parts.append(K(format(val, spec or '')))
+                    except (ValueError, TypeError) as e:
+                        raise RaiseEx(type(e).__name__, 'format')
+                elif isinstance(x, PBits) and x.view == 'str' and spec is None and v.conversion == -1:
                     parts.append(x)
+                elif spec is None and v.conversion == -1 and not isinstance(x, (Inst, ListV, DictV, SetV)):
+                    parts.append(x)
+                else:
+                    parts.append(Term('fmt', x, K(spec if isinstance(spec, str) else None), K(v.conversion)))
         if all(isinstance(p, K) for p in parts):
             return K(''.join(str(p.v) for p in parts))
         return Term('fstr', *parts)
@@ -406,6 +435,9 @@ class Interp:
         return out
 
     def dkey(self, v):
+        hook = getattr(v, 'abs_dkey', None)
+        if hook is not None:
+            return hook(self)
         if isinstance(v, Inst) and v.cls is not None:
             # user-defined __hash__ decides dictionary identity (its agreement with __eq__ is a separate obligation, C01.D6/C13.D5)
             c, m = self.prog.find_method(v.cls, '__hash__')
@@ -437,6 +469,55 @@ class Interp:
             d.d[key] = self.ev(v, fr)
             d.keyobj[key] = kk
         return d
+
+    def ev_NamedExpr(self, n, fr):
+        v = self.ev(n.value, fr)
+        # the target of := is bound in the enclosing function scope, not in a comprehension's own scope
+        f = fr
+        while f.parent is not None and f.func is not None and f.parent.func is f.func and getattr(f, 'comp', False):
+            f = f.parent
+        self.assign(n.target, v, f)
+        return v
+
+    @staticmethod
+    def is_generator(node):
+        cache = getattr(node, '_is_gen', None)
+        if cache is None:
+            cache = False
+            work = list(getattr(node, 'body', [])) if not isinstance(node, ast.Lambda) else []
+            while work:
+                x = work.pop()
+                if isinstance(x, (ast.Yield, ast.YieldFrom)):
+                    cache = True
+                    break
+                if isinstance(x, (ast.FunctionDef, ast.AsyncFunctionDef, ast.Lambda, ast.ClassDef)):
+                    continue
+                work.extend(ast.iter_child_nodes(x))
+            node._is_gen = cache
+        return cache
+
+    def gen_sink(self, fr):
+        f = fr
+        while f is not None:
+            if getattr(f, 'gen', None) is not None:
+                return f.gen
+            f = f.parent if (f.parent is not None and f.parent.func is f.func) else None
+        raise Fail('yield outside a generator frame')
+
+    def ev_Yield(self, n, fr):
+        # generators are run eagerly to completion when called (the package's generators are finite and do not interleave with their consumer)
+        self.gen_sink(fr).append(self.ev(n.value, fr) if n.value is not None else K(None))
+        return K(None)
+
+    def ev_YieldFrom(self, n, fr):
+        items = self.iterate(self.ev(n.value, fr))
+        if items is None:
+            raise Fail('yield from an unknown iterable')
+        self.gen_sink(fr).extend(items)
+        return K(None)
+
+    def ev_Starred(self, n, fr):
+        raise Fail('starred expression outside a call / display')
 
     def ev_Lambda(self, n, fr):
         return FuncRef(n, fr.module, cls=fr.cls, closure=fr)
@@ -524,6 +605,11 @@ class Interp:
                             return Cond(r.key, not r.pol, r.desc)
                         return K(not self.truth(r, n))
                     return r if isinstance(r, (K, Cond)) else K(self.truth(r, n))
+                r = self.models.dataclass_eq(self, a, b)
+                if r is not None:
+                    if t is ast.NotEq:
+                        return Cond(r.key, not r.pol, r.desc) if isinstance(r, Cond) else K(not self.truth(r, n))
+                    return r
             pa, pb = as_poly(a), as_poly(b)
             if pa is not None and pb is not None and not (isinstance(a, K) and isinstance(b, K)):
                 return self.int_cond(op, pa, pb)
@@ -539,6 +625,14 @@ class Interp:
                 lo, hi = (K(0), rng[0]) if len(rng) == 1 else rng
                 inside = self.truth(self.cmp(ast.LtE(), lo, a, n), n) and self.truth(self.cmp(ast.Lt(), a, hi, n), n)
                 return K(inside if t is ast.In else not inside)
+            if isinstance(b, Inst) and b.cls is not None:
+                c, m = self.prog.find_method(b.cls, '__contains__')
+                if m is not None:
+                    r = self.truth(self.invoke(FuncRef(m, c.module, c), [b, a], {}), n)
+                    return K(r if t is ast.In else not r)
+                c, m = self.prog.find_method(b.cls, '__iter__')
+                if m is not None:
+                    b = ListV(self.iterate(b))
             r = self.contains(b, a)
             if r is None:
                 return Cond(('in', repr(self.vkey(a)), repr(self.vkey(b))), t is ast.In, f'{vrepr(a)[:30]} in {vrepr(b)[:30]}')
@@ -561,14 +655,43 @@ class Interp:
                 return Cond(('isnone', repr(self.vkey(other))), t is ast.Is, f'{vrepr(other)[:40]} is None')
             if self.vkey(a) == self.vkey(b):
                 return K(t is ast.Is)
+            if isinstance(a, (Builtin, ClassRef, Ext)) and isinstance(b, (Builtin, ClassRef, Ext)):
+                return K(t is ast.IsNot)
             if isinstance(a, (Inst, ListV, DictV, SetV, BA)) and isinstance(b, (Inst, ListV, DictV, SetV, BA)):
                 return K((a is b) == (t is ast.Is))        # identity of heap objects is decided by the model's own identity
             return Cond(('is', repr(self.vkey(a)), repr(self.vkey(b))), t is ast.Is, 'is')
-        if isinstance(a, K) and isinstance(b, K):
+        if isinstance(a, Inst) and a.cls is not None:
+            dn = {ast.Lt: '__lt__', ast.LtE: '__le__', ast.Gt: '__gt__', ast.GtE: '__ge__'}[t]
+            c, m = self.prog.find_method(a.cls, dn)
+            if m is not None:
+                r = self.invoke(FuncRef(m, c.module, c), [a, b], {})
+                return r if isinstance(r, (K, Cond)) else K(self.truth(r, n))
+            if isinstance(b, Inst) and b.cls is not None:
+                dn = {ast.Lt: '__gt__', ast.LtE: '__ge__', ast.Gt: '__lt__', ast.GtE: '__le__'}[t]
+                c, m = self.prog.find_method(b.cls, dn)
+                if m is not None:
+                    r = self.invoke(FuncRef(m, c.module, c), [b, a], {})
+                    return r if isinstance(r, (K, Cond)) else K(self.truth(r, n))
+        if isinstance(a, (K, ListV)) and isinstance(b, (K, ListV)):
             try:
-                return K({ast.Lt: _op.lt, ast.LtE: _op.le, ast.Gt: _op.gt, ast.GtE: _op.ge}[t](a.v, b.v))
-            except Exception:
-                raise RaiseEx('TypeError', 'unorderable')
+                ca, cb = self.models.to_const(a), self.models.to_const(b)
+            except self.models.NotConst:
+                ca = cb = None
+                if isinstance(a, ListV) and isinstance(b, ListV):
+                    # lexicographic comparison, element by element
+                    for x, y in zip(a.items, b.items):
+                        e = self.cmp(ast.Eq(), x, y, n)
+                        if self.truth(e, n):
+                            continue
+                        strict = {ast.Lt: ast.Lt, ast.LtE: ast.Lt, ast.Gt: ast.Gt, ast.GtE: ast.Gt}[t]()
+                        return self.cmp(strict, x, y, n)
+                    la, lb = len(a.items), len(b.items)
+                    return K({ast.Lt: la < lb, ast.LtE: la <= lb, ast.Gt: la > lb, ast.GtE: la >= lb}[t])
+            else:
+                try:
+                    return K({ast.Lt: _op.lt, ast.LtE: _op.le, ast.Gt: _op.gt, ast.GtE: _op.ge}[t](ca, cb))
+                except Exception:
+                    raise RaiseEx('TypeError', 'unorderable')
         pa, pb = as_poly(a), as_poly(b)
         if pa is not None and pb is not None:
             return self.int_cond(op, pa, pb)
@@ -643,6 +766,14 @@ class Interp:
             if r is not None:
                 return r
         t = type(op)
+        dn = {ast.Add: 'add', ast.Sub: 'sub', ast.Mult: 'mul', ast.FloorDiv: 'floordiv', ast.Mod: 'mod', ast.LShift: 'lshift', ast.RShift: 'rshift',
+              ast.BitAnd: 'and', ast.BitOr: 'or', ast.BitXor: 'xor', ast.Pow: 'pow', ast.Div: 'truediv', ast.MatMult: 'matmul'}.get(t)
+        if dn is not None:
+            for x, y, name in ((a, b, f'__{dn}__'), (b, a, f'__r{dn}__')):
+                if isinstance(x, Inst) and x.cls is not None and not (x.native is not None and isinstance(x.native, BA)):
+                    c, m = self.prog.find_method(x.cls, name)
+                    if m is not None:
+                        return self.invoke(FuncRef(m, c.module, c), [x, y], {})
         if t is ast.Mult:
             # sequence repetition: the size of the result is work / memory the interpreted program spends
             for x, y in ((a, b), (b, a)):
@@ -679,6 +810,8 @@ class Interp:
             if t is ast.LShift and pb.is_const() and pb.cval() >= 0:
                 return PInt(pa * Poly.const(1 << pb.cval()))
             return atom(f'({pa}){_OPNAME[t]}({pb})')
+        if isinstance(a, SetV) and isinstance(b, SetV) and t in (ast.BitOr, ast.BitAnd, ast.Sub, ast.BitXor):
+            return self.models.set_op(self, a, {ast.BitOr: 'union', ast.BitAnd: 'intersection', ast.Sub: 'difference', ast.BitXor: 'symmetric_difference'}[t], [b])
         if t is ast.Add:
             r = self.concat(a, b)
             if r is not None:
@@ -689,7 +822,14 @@ class Interp:
                     return ListV(x.items * y.v, x.tup)
                 if isinstance(x, K) and isinstance(x.v, (str, bytes)) and isinstance(y, PInt):
                     return Term('repeat', x, y)
-        if t is ast.Mod and isinstance(a, K) and isinstance(a.v, str):
+        if t is ast.Mod and isinstance(a, K) and isinstance(a.v, (str, bytes)):
+            try:
+                cb = self.models.to_const(b)
+                return K(a.v % cb)
+            except self.models.NotConst:
+                pass
+            except (TypeError, ValueError) as e:
+                raise RaiseEx(type(e).__name__, '% formatting')
             return Term('strfmt', a, b)
         return Term(_OPNAME.get(t, t.__name__), a, b)
 
@@ -811,6 +951,10 @@ class Interp:
             k = self.dkey(i)
             if k in v.d:
                 return v.d[k]
+            if getattr(v, 'default_factory', None) is not None:
+                v.d[k] = self.call(v.default_factory, [], {}, n)
+                v.keyobj[k] = i
+                return v.d[k]
             if isinstance(i, K) and all(not isinstance(o, tuple) for o in v.d):
                 raise RaiseEx('KeyError', repr(i.v))
             return Term('item', v, i)
@@ -861,6 +1005,18 @@ class Interp:
                 v.attrs[a] = Sym(f'{v.cls.name}.{a}', key=('attr', id(v), a))
                 return v.attrs[a]
             raise RaiseEx('AttributeError', f'{v.cls.name if v.cls else "?"} object has no attribute {a}', n)
+        if isinstance(v, SuperProxy) and isinstance(v.inst, ExcV):
+            mro = self.prog.mro(v.inst.cls)
+            idx = [c.name for c in mro].index(v.after.name) if v.after.name in [c.name for c in mro] else -1
+            for c in mro[idx + 1:]:
+                if a in c.methods:
+                    return Bound(v.inst, FuncRef(c.methods[a], c.module, c))
+            if a == '__init__':
+                def base_init(it, args, kw, node, _e=v.inst):
+                    _e.args = tuple(args)
+                    return K(None)
+                return Native(base_init, 'BaseException.__init__')
+            raise Fail(f'super().{a} on an exception')
         if isinstance(v, SuperProxy):
             mro = self.prog.mro(v.inst.cls if isinstance(v.inst, Inst) else v.inst)
             idx = [c.name for c in mro].index(v.after.name) if v.after.name in [c.name for c in mro] else -1
@@ -901,6 +1057,16 @@ class Interp:
         raise Fail(f'getattr {v!r}.{a} line {getattr(n, "lineno", "?")}')
 
     def class_attr(self, cls, a, inst):
+        if inst is None and self.models.enum_kind(self, cls) is not None:
+            mem = self.models.enum_members(self, cls)
+            if a in mem:
+                return mem[a]
+            if a == '__members__':
+                d = DictV()
+                for k, m in mem.items():
+                    d.d[k] = m
+                    d.keyobj[k] = K(k)
+                return d
         for c in self.prog.mro(cls):
             if a in c.methods:
                 fn = c.methods[a]
@@ -923,8 +1089,16 @@ class Interp:
                 if inst is not None:
                     return Bound(inst, f)
                 return f
-            if a in c.class_attrs:
-                return self.ev(c.class_attrs[a], Frame(c.module, cls=c))
+            if a in c.class_attrs or (c.qual, a) in self.__dict__.get('_class_vals', {}):
+                # class-level objects are created once, when the class body runs: every access sees the same object (shared mutable
+                # class attributes are observable state), and assignments to Class.attr rebind it
+                cache = self.__dict__.setdefault('_class_vals', {})
+                if (c.qual, a) not in cache:
+                    cache[(c.qual, a)] = self.ev(c.class_attrs[a], Frame(c.module, cls=c))
+                v = cache[(c.qual, a)]
+                if isinstance(v, FuncRef) and isinstance(v.node, ast.Lambda) and inst is not None:
+                    return Bound(inst, v)
+                return v
         return None
 
     def new_inst(self, cls):
@@ -936,9 +1110,14 @@ class Interp:
             inst.native = nat
         return inst
 
+    def comp_frame(self, fr):
+        f = Frame(fr.module, fr, fr.func, fr.cls)
+        f.comp = True
+        return f
+
     def ev_ListComp(self, n, fr):
         out = []
-        self.comp(n.generators, 0, Frame(fr.module, fr, fr.func, fr.cls), lambda f2: out.append(self.ev(n.elt, f2)))
+        self.comp(n.generators, 0, self.comp_frame(fr), lambda f2: out.append(self.ev(n.elt, f2)))
         return ListV(out)
 
     ev_GeneratorExp = ev_ListComp
@@ -949,7 +1128,7 @@ class Interp:
         def add(f2):
             v = self.ev(n.elt, f2)
             s.items[self.dkey(v)] = v
-        self.comp(n.generators, 0, Frame(fr.module, fr, fr.func, fr.cls), add)
+        self.comp(n.generators, 0, self.comp_frame(fr), add)
         return s
 
     def ev_DictComp(self, n, fr):
@@ -961,7 +1140,7 @@ class Interp:
             d.d[key] = self.ev(n.value, f2)
             d.keyobj[key] = k
         try:
-            self.comp(n.generators, 0, Frame(fr.module, fr, fr.func, fr.cls), add)
+            self.comp(n.generators, 0, self.comp_frame(fr), add)
         except Fail:
             return Term('dictcomp', Sym('unknown'))
         return d
@@ -1009,6 +1188,13 @@ class Interp:
             return [it.bit(i) for i in range(len(it))]
         if isinstance(it, Inst) and isinstance(it.native, BA):
             return [it.native.bit(i) for i in range(len(it.native))]
+        if isinstance(it, ClassRef) and self.models.enum_kind(self, it) is not None:
+            return list(self.models.enum_members(self, it).values())
+        if isinstance(it, Inst) and it.cls is not None:
+            c, m = self.prog.find_method(it.cls, '__iter__')
+            if m is not None:
+                r = self.invoke(FuncRef(m, c.module, c), [it], {})
+                return self.iterate(r) if r is not it else None
         return None
 
     # =============================================================== calls
@@ -1073,14 +1259,34 @@ class Interp:
             return self.opaque_call(f, args, kw, n)
         if isinstance(f, K) and f.v is None:
             raise RaiseEx('TypeError', 'NoneType is not callable')
+        if isinstance(f, Inst) and f.cls is not None:
+            c, m = self.prog.find_method(f.cls, '__call__')
+            if m is not None:
+                return self.invoke(FuncRef(m, c.module, c), [f] + list(args), kw)
         raise Fail(f'call of {f!r} line {getattr(n, "lineno", "?")}')
 
     def opaque_call(self, f, args, kw, n):
         return Term('call', f, *args)
 
     def construct(self, cls, args, kw, n=None):
+        if self.models.enum_kind(self, cls) is not None:
+            if len(args) != 1:
+                raise Fail(f'{cls.name}(...) with {len(args)} arguments')
+            return self.models.enum_lookup(self, cls, args[0])
+        if 'NamedTuple' in self.prog.ext_bases(cls):
+            fields = self.models.dataclass_fields(self, cls)
+            dflt = [(f, d) for f, d, _ in fields if d is not None]
+            nt = self.models.NamedTupleClass(cls.name, [f for f, _, _ in fields],
+                                             ListV([self.ev(d, Frame(cls.module, getattr(cls, 'closure', None), cls=cls)) for _, d in dflt], tup=True) if dflt else None)
+            nt.cls = cls
+            return nt.abs_call(self, args, kw, n)
         if self.is_exception_class(cls):
-            return ExcV(cls.name, tuple(args))
+            ev = ExcV(cls.name, tuple(args))
+            ev.cls = cls
+            c, init = self.prog.find_method(cls, '__init__')
+            if init is not None:
+                self.invoke(FuncRef(init, c.module, c), [ev] + list(args), kw)
+            return ev
         cn, new = self.prog.find_method(cls, '__new__')
         if new is not None:
             inst = self.invoke(FuncRef(new, cn.module, cn), [cls] + list(args), dict(kw))
@@ -1102,8 +1308,20 @@ class Interp:
     def is_exception_class(self, cls):
         return any(b in _PY_EXC or b == 'BaseException' for b in self.prog.ext_bases(cls))
 
-    def exc_matches(self, kind, names):
+    def exc_matches(self, kind, names, value=None):
         """does exception `kind` match one of the handler's class names?"""
+        cls = getattr(value, 'cls', None)
+        if cls is not None:
+            chain = [c.name for c in self.prog.mro(cls)] + list(self.prog.ext_bases(cls))
+            for b in list(chain):
+                cur = b
+                for _ in range(20):
+                    cur = _PY_EXC.get(cur, 'Exception' if cur not in ('Exception', 'BaseException') else None)
+                    if cur is None:
+                        break
+                    chain.append(cur)
+            chain.append('BaseException')
+            return any(x in chain for x in names)
         chain = [kind]
         cur = kind
         for _ in range(20):
@@ -1230,6 +1448,15 @@ class Interp:
             self.bind(f, args, kw, fr)
             if isinstance(node, ast.Lambda):
                 return self.ev(node.body, fr)
+            if self.is_generator(node):
+                fr.gen = []
+                try:
+                    self.block(node.body, fr)
+                except ReturnEx:
+                    pass
+                out = ListV(fr.gen)
+                out.is_iter = True
+                return out
             try:
                 self.block(node.body, fr)
             except ReturnEx as r:
@@ -1276,15 +1503,32 @@ class Interp:
 
     def st_Raise(self, st, fr):
         if st.exc is None:
+            cur = getattr(fr, 'handling', None)
+            if cur is not None:
+                raise cur
             raise RaiseEx('Exception', 're-raise', st)
         e = st.exc
         kind = None
+        val = None
         if isinstance(e, ast.Call):
             kind = e.func.id if isinstance(e.func, ast.Name) else e.func.attr if isinstance(e.func, ast.Attribute) else None
+            try:
+                val = self.ev(e, fr)
+            except Fail:
+                val = None
+            if isinstance(val, ExcV):
+                kind = val.kind
         elif isinstance(e, ast.Name):
             v = fr.lookup(e.id) if fr.has(e.id) else None
             kind = v.kind if isinstance(v, ExcV) else e.id
-        raise RaiseEx(kind or 'Exception', ast.unparse(e)[:80], st)
+            val = v if isinstance(v, ExcV) else None
+        else:
+            v = self.ev(e, fr)
+            if isinstance(v, ExcV):
+                kind, val = v.kind, v
+        ex = RaiseEx(kind or 'Exception', ast.unparse(e)[:80], st)
+        ex.value = val if isinstance(val, ExcV) else None
+        raise ex
 
     def st_Assert(self, st, fr):
         c = self.ev(st.test, fr)
@@ -1394,10 +1638,15 @@ class Interp:
                         ts = h.type.elts if isinstance(h.type, ast.Tuple) else [h.type]
                         for t in ts:
                             names.append(t.id if isinstance(t, ast.Name) else t.attr if isinstance(t, ast.Attribute) else '?')
-                    if self.exc_matches(e.kind, names):
+                    if self.exc_matches(e.kind, names, getattr(e, 'value', None)):
                         if h.name:
-                            fr.vars[h.name] = ExcV(e.kind)
-                        self.block(h.body, fr)
+                            fr.vars[h.name] = getattr(e, 'value', None) or ExcV(e.kind)
+                        prev_h = getattr(fr, 'handling', None)
+                        fr.handling = e
+                        try:
+                            self.block(h.body, fr)
+                        finally:
+                            fr.handling = prev_h
                         break
                 else:
                     raise
@@ -1408,11 +1657,32 @@ class Interp:
                 self.block(st.finalbody, fr)
 
     def st_With(self, st, fr):
+        exits = []
         for item in st.items:
             v = self.ev(item.context_expr, fr)
+            if isinstance(v, Inst) and v.cls is not None:
+                c, m = self.prog.find_method(v.cls, '__enter__')
+                c2, m2 = self.prog.find_method(v.cls, '__exit__')
+                if m is None or m2 is None:
+                    raise Fail(f'with over an object without __enter__/__exit__ line {st.lineno}')
+                exits.append((v, FuncRef(m2, c2.module, c2)))
+                v = self.invoke(FuncRef(m, c.module, c), [v], {})
             if item.optional_vars is not None:
                 self.assign(item.optional_vars, v, fr)
-        self.block(st.body, fr)
+        try:
+            self.block(st.body, fr)
+        except RaiseEx as e:
+            for o, ex in reversed(exits):
+                if self.truth(self.invoke(ex, [o, Sym('exc_type', not_none=True), ExcV(e.kind), Sym('traceback', not_none=True)], {})):
+                    return
+            raise
+        except (ReturnEx, BreakEx, ContinueEx):
+            for o, ex in reversed(exits):
+                self.invoke(ex, [o, K(None), K(None), K(None)], {})
+            raise
+        else:
+            for o, ex in reversed(exits):
+                self.invoke(ex, [o, K(None), K(None), K(None)], {})
 
     def st_Continue(self, st, fr):
         raise ContinueEx()
@@ -1424,9 +1694,10 @@ class Interp:
         pass
 
     def st_Global(self, st, fr):
-        pass
+        fr.__dict__.setdefault('globals_', set()).update(st.names)
 
-    st_Nonlocal = st_Global
+    def st_Nonlocal(self, st, fr):
+        fr.__dict__.setdefault('nonlocals', set()).update(st.names)
 
     def st_Import(self, st, fr):
         for a in st.names:
@@ -1446,7 +1717,10 @@ class Interp:
         fr.vars[st.name] = FuncRef(st, fr.module, cls=fr.cls, closure=fr)
 
     def st_ClassDef(self, st, fr):
-        fr.vars[st.name] = ClassRef(st.name, st, fr.module)
+        c = ClassRef(st.name, st, fr.module)
+        c.closure = fr
+        c.local = True
+        fr.vars[st.name] = c
 
     def st_Delete(self, st, fr):
         for tg in st.targets:
@@ -1495,7 +1769,19 @@ class Interp:
 
     def assign(self, tg, v, fr):
         if isinstance(tg, ast.Name):
-            # assignment to a name already bound in an enclosing *function* frame stays local (python semantics) unless nonlocal
+            # assignment to a name already bound in an enclosing *function* frame stays local (python semantics) unless nonlocal / global
+            if tg.id in getattr(fr, 'nonlocals', ()):
+                f = fr.parent
+                while f is not None and tg.id not in f.vars:
+                    f = f.parent
+                if f is None:
+                    raise Fail(f'nonlocal {tg.id} has no binding')
+                f.vars[tg.id] = v
+                return
+            if tg.id in getattr(fr, 'globals_', ()):
+                self.__dict__.setdefault('_globals', {})[(fr.module, tg.id)] = v
+                self.__dict__.setdefault('global_writes', []).append((fr.module, tg.id, v))
+                return
             fr.vars[tg.id] = v
         elif isinstance(tg, ast.Attribute):
             o = self.ev(tg.value, fr)
@@ -1508,6 +1794,21 @@ class Interp:
             self.setitem(o, k, v, tg)
         elif isinstance(tg, (ast.Tuple, ast.List)):
             items = self.iterate(v)
+            star = [i for i, e in enumerate(tg.elts) if isinstance(e, ast.Starred)]
+            if star:
+                if items is None:
+                    raise Fail('starred unpacking of an unknown iterable')
+                si = star[0]
+                after = len(tg.elts) - si - 1
+                if len(items) < len(tg.elts) - 1:
+                    raise RaiseEx('ValueError', 'not enough values to unpack')
+                mid = items[si:len(items) - after]
+                for e, x in zip(tg.elts[:si], items[:si]):
+                    self.assign(e, x, fr)
+                self.assign(tg.elts[si].value, ListV(mid), fr)
+                for e, x in zip(tg.elts[si + 1:], items[len(items) - after:] if after else []):
+                    self.assign(e, x, fr)
+                return
             if items is None:
                 items = [Term('unpack', v, K(i)) for i in range(len(tg.elts))]
             elif len(items) != len(tg.elts):
@@ -1535,8 +1836,12 @@ class Interp:
             return
         if isinstance(o, ClassRef):
             self.__dict__.setdefault('class_writes', []).append((o.name, a, v))
+            self.__dict__.setdefault('_class_vals', {})[(o.qual, a)] = v
             return
         if isinstance(o, (Sym, Term)):
+            return
+        if isinstance(o, ExcV):
+            o.__dict__.setdefault('attrs', {})[a] = v
             return
         raise Fail(f'setattr on {o!r}.{a}')
 
@@ -1555,6 +1860,11 @@ class Interp:
                 raise RaiseEx('IndexError', 'assignment index')
         elif isinstance(o, (Sym, Term)):
             return
+        elif isinstance(o, K) and isinstance(o.v, bytearray) and isinstance(k, K) and isinstance(v, K):
+            try:
+                o.v[k.v] = v.v
+            except (IndexError, ValueError, TypeError) as e:
+                raise RaiseEx(type(e).__name__, 'bytearray item assignment')
         else:
             raise Fail(f'setitem on {o!r}')
 
